@@ -41,6 +41,20 @@ fn input_class(s: &str) -> &'static str {
 pub fn j_total(p: usize, s: &str, out: &mut Local) {
     match run1(p, s) {
         Ok(v) => {
+            // the result is a function of the string: the same text handed over as the front part of a longer buffer (a
+            // field of a line, bytes that would complete a unit or a name right behind it) must give the same verdict - a
+            // read past the end of the slice cannot be seen on an owned copy
+            if s.len() <= 64 && p >= 3 && p <= 6 && s.as_bytes().last().is_some_and(|b| b.is_ascii_alphabetic()) {
+                for tail in ["s", "in", "TC", "ay"] {
+                    let big = format!("{s}{tail}");
+                    if let Ok(v2) = run1(p, &big[..s.len()]) {
+                        if v2 != v {
+                            out.viol("c13.total", format!("{}/result-depends-on-bytes-behind-the-string/{}", PARSERS[p], input_class(s)), vec![p.to_string(), s.to_string()], format!("{}", if v { "Ok" } else { "Err" }), format!("{} when followed in memory by {tail:?}", if v2 { "Ok" } else { "Err" }));
+                            return;
+                        }
+                    }
+                }
+            }
             let nt = !s.is_ascii() || s.len() > 6;
             out.ok(1, nt, p as u64 * 4 + v as u64 + 2 * (!s.is_ascii()) as u64);
             if out.want_sample(nt && v) {
@@ -196,9 +210,15 @@ pub fn j_range_fmt(fam: usize, v: [i64; 6], out: &mut Local) {
         }
         4 => {
             // v = [year, day of year]: ISO 8601 ordinal date
+            // v[2] = order of the two tokens: the year first (ISO), or the day of year first (the year is not known yet
+            // when the day of year is read)
             let (y, j) = (v[0], v[1]);
             let inv = j < 1 || j > ylen(y);
-            ("%Y-%j".to_string(), format!("{y:04}-{j:03}"), inv, !inv, "day-of-year")
+            match v[2] {
+                0 => ("%Y-%j".to_string(), format!("{y:04}-{j:03}"), inv, !inv, "day-of-year"),
+                1 => ("%j/%Y".to_string(), format!("{j:03}/{y:04}"), inv, !inv, "day-of-year"),
+                _ => ("%j %H:%M:%S %Y".to_string(), format!("{j:03} 11:22:33 {y:04}"), inv, !inv, "day-of-year"),
+            }
         }
         5 => {
             // v = [year, tenths of a day of year]: fractional day of year
@@ -480,6 +500,16 @@ pub fn corpus(p: usize, double: bool, double_max_len: usize) -> Vec<String> {
     let alpha = alphabet(p);
     let ext = numeric_extremes();
     let mut v: Vec<String> = vec![String::new(), " ".into(), "\t\n".into(), "\u{0}".into(), "a".repeat(1000), "9".repeat(1000), "μ".repeat(7), " ".repeat(7) + "μ"];
+    // long inputs made of many well-formed pieces (a fixed-size scratch table overflows by count, not by length)
+    for n in [8usize, 9, 15, 16, 17, 31, 32, 33, 63, 64, 65, 127, 128, 129, 255, 256, 257, 1000, 4097] {
+        v.push((1..=n).map(|i| format!("{i} ms")).collect::<Vec<_>>().join(" "));
+        v.push((1..=n).map(|i| format!("{} {}", i % 7, ["d", "h", "min", "s", "ms", "us", "ns"][i % 7])).collect::<Vec<_>>().join(" "));
+        v.push("%Y".repeat(n));
+        v.push(format!("2017-01-14T00:31:55.{} UTC", "1".repeat(n)));
+        v.push(format!("{}2017-01-14T00:31:55 UTC", " ".repeat(n)));
+        v.push(format!("JD {}.5 TAI", "1".repeat(n)));
+        v.push(format!("1.{} d", "3".repeat(n)));
+    }
     for seed in seeds(p) {
         let m1 = mutants1(seed, &alpha);
         v.extend(splices(seed, &ext));
@@ -671,7 +701,9 @@ pub fn run(rep: &mut Report) {
     }
     for y in [1900i64, 2000, 2023, 2024, 2100] {
         for j in [0i64, 1, 59, 60, 365, 366, 367, 400, 999] {
-            rf.push((4, [y, j, 0, 0, 0, 0]));
+            for ord in 0..3i64 {
+                rf.push((4, [y, j, ord, 0, 0, 0]));
+            }
             for (h, mi, sc) in [(0i64, 0i64, 0i64), (12, 55, 60), (23, 59, 59), (23, 59, 60), (24, 0, 0), (25, 0, 0), (12, 60, 0), (12, 0, 61)] {
                 rf.push((6, [y, j, h, mi, sc, 0]));
             }
